@@ -997,7 +997,9 @@ func (s *v4Server) handleRequest(req, resp *dhcpv4.DHCPv4) (lease *dhcpsvc.Lease
 
 // handleDecline is the handler for the DHCP Decline request.
 func (s *v4Server) handleDecline(req, resp *dhcpv4.DHCPv4) (err error) {
-	s.conf.notify(LeaseChangedDBStore)
+	// Store the leases after they have been changed, i.e. after the lock is
+	// released.
+	defer s.conf.notify(LeaseChangedDBStore)
 
 	s.leasesLock.Lock()
 	defer s.leasesLock.Unlock()
@@ -1032,13 +1034,9 @@ func (s *v4Server) handleDecline(req, resp *dhcpv4.DHCPv4) (err error) {
 		return nil
 	}
 
-	newLease.Hostname = oldLease.Hostname
-	newLease.Expiry = time.Now().Add(s.conf.leaseTime)
-
-	err = s.addLease(newLease)
-	if err != nil {
-		return fmt.Errorf("adding new lease for %s: %w", mac, err)
-	}
+	// The new lease has already been added to the leases by allocateLease, so
+	// only refresh its hostname and expiration time here.
+	s.commitLease(newLease, oldLease.Hostname)
 
 	log.Info("dhcpv4: changed IP from %s to %s for %s", reqIP, newLease.IP, mac)
 
